@@ -181,6 +181,29 @@ Section IncP.
       (fst (gexpand max_depth [] p0 k s0), gfinal_of (snd (gexpand max_depth [] p0 k s0))).
   Proof. intros H. apply steps_run. apply top_steps. exact H. Qed.
 
+  (* a run that did not exhaust its fuel is stable: more fuel gives the same result *)
+  Lemma run_stable : forall fuel st, snd (run fuel st) <> FOutOfFuel _ _ ->
+    forall fuel', fuel <= fuel' -> run fuel' st = run fuel st.
+  Proof.
+    induction fuel as [|f IH]; intros st H fuel' Hle; [cbn in H; congruence|].
+    destruct fuel' as [|f']; [lia|]. cbn [ZfInc.run] in *.
+    destruct (nstep st) as [|p e|it st'|st'|a]; try reflexivity.
+    - destruct (run f st') as [l o] eqn:E. cbn [snd] in H.
+      rewrite (IH st') by (rewrite ?E; cbn [snd]; try exact H; lia). rewrite E. reflexivity.
+    - apply IH; [exact H|lia].
+  Qed.
+
+  (* so ANY fuel that does not run out computes the structural expansion *)
+  Lemma run_any_fuel p0 n0 s0 k fuel :
+    snd (gexpand max_depth [] p0 k s0) <> GFuel _ _ _ _ _ _ ->
+    snd (run fuel [(p0, n0, s0)]) <> FOutOfFuel _ _ ->
+    run fuel [(p0, n0, s0)] =
+    (fst (gexpand max_depth [] p0 k s0), gfinal_of (snd (gexpand max_depth [] p0 k s0))).
+  Proof.
+    intros Hk Hf. destruct (run_eq_gexpand p0 n0 s0 k Hk) as [f0 H0].
+    rewrite <- (H0 (Nat.max f0 fuel)) by lia. symmetry. apply run_stable; [exact Hf|lia].
+  Qed.
+
   (* an $INCLUDE at the nesting limit is an IncludesTooDeep error at that line, with the chain *)
   Lemma gexpand_too_deep chain p k s n ip o s' :
     pnext s = PInc _ _ _ _ _ n ip o s' ->
